@@ -72,7 +72,11 @@ class Check:
                 knownhits.append((o, known[k]))
             else:
                 viol.append(o)
-        os.makedirs(os.path.join(VERIF, "evidence", "replay"), exist_ok=True)
+        rdir = os.path.join(VERIF, "evidence", "replay")
+        os.makedirs(rdir, exist_ok=True)
+        for fn in os.listdir(rdir):
+            if fn.startswith(self.pid + "-"):
+                os.unlink(os.path.join(rdir, fn))
         if os.environ.get("VERIF_VERBOSE"):
             for o in self.obls:
                 print(("ok  " if o["ok"] else "FAIL"), o["rule"], o["key"], "@", o["site"], "=>", str(o["detail"])[:220])
